@@ -351,6 +351,8 @@ func (s *Session) play(st *Step) error {
 		}
 	case "failwrite":
 		s.Sock.FailWriteAt(st.N)
+	case "storm":
+		err = s.storm(st)
 	case "idle":
 		// every live subscription has run at least once and its minimum
 		// re-run interval has passed: the next invalidation re-runs at once
@@ -380,6 +382,84 @@ func (s *Session) play(st *Step) error {
 		time.Sleep(time.Duration(st.PauseUS) * time.Microsecond)
 	}
 	return err
+}
+
+// spin busy-waits for about ns nanoseconds (sub-scheduler-quantum pacing).
+func spin(ns int) {
+	t0 := time.Now()
+	for time.Since(t0) < time.Duration(ns) {
+	}
+}
+
+// storm is a stress step: st.N rounds of "subscribe up to four cheap
+// subscriptions, invalidate all of them with one write, and at once pipeline a
+// mutation (whose completion calls RerunImmediately on every rerunner) and the
+// unsubscribes". Every round races Rerunner.Stop against the wake-up of a
+// re-run (odd rounds: of the initial run) of each subscription, with the
+// relative timing swept by a per-round jitter. st.Landing lists the write
+// operations to cycle through.
+func (s *Session) storm(st *Step) error {
+	ids := []string{"a", "b", "c", "d"}
+	if s.Cfg.MaxSubs < len(ids) {
+		ids = ids[:s.Cfg.MaxSubs]
+	}
+	x := uint64(s.Cfg.Seed)*2654435761 + 12345
+	next := func(n int) int {
+		x = x*6364136223846793005 + 1442695040888963407
+		return int((x >> 33) % uint64(n))
+	}
+	for round := 0; round < st.N && !s.Served(); round++ {
+		last := 0
+		for i, id := range ids {
+			tag := fmt.Sprintf("s%d_%d", round, i)
+			q := fmt.Sprintf("{ root(tag: %q) { n res } }", tag)
+			last = s.Sock.Send(id, "subscribe", map[string]interface{}{"query": q, "variables": map[string]interface{}{}}, MsgMeta{Tag: tag, Query: q})
+		}
+		if round%2 == 0 {
+			if o := s.WaitProcessed(last); o != vlib.Reached {
+				return fmt.Errorf("storm: message %d not processed: %v", last, o)
+			}
+			// let the initial runs finish and the minimum re-run interval pass
+			spin(1000*s.Cfg.MinRerunUS + 50000 + next(250000))
+		}
+		op := st.Landing[round%len(st.Landing)]
+		mq := fmt.Sprintf("mutation { apply(op: %d) }", st.Landing[(round+1)%len(st.Landing)])
+		mutate := func() int {
+			return s.Sock.Send(fmt.Sprintf("sm%d", round), "mutate", map[string]interface{}{"query": mq, "variables": map[string]interface{}{}}, MsgMeta{Query: mq})
+		}
+		unsubs := func() {
+			for _, id := range ids {
+				last = s.Sock.Send(id, "unsubscribe", nil, MsgMeta{})
+				spin(next(40000))
+			}
+		}
+		early := round%3 == 0
+		if early {
+			mutate() // its completion flushes every rerunner while they wake up
+			spin(next(80000))
+		}
+		// the invalidation and the unsubscribes start within +-150 us of each
+		// other; the subscriptions re-run one after the other in the
+		// invalidating goroutine, so the four Stops meet different phases
+		lead := next(190000) - 40000
+		if lead >= 0 {
+			s.World.Apply(op, "storm")
+			spin(lead)
+			unsubs()
+		} else {
+			done := make(chan struct{})
+			go func() { spin(-lead); s.World.Apply(op, "storm"); close(done) }()
+			unsubs()
+			<-done
+		}
+		if !early {
+			last = mutate()
+		}
+		if o := s.WaitProcessed(last); o != vlib.Reached {
+			return fmt.Errorf("storm: message %d not processed: %v", last, o)
+		}
+	}
+	return nil
 }
 
 // syncInitials waits (pacing, bounded) until all queued messages are
